@@ -192,6 +192,64 @@ def _block(stmts, fn_counts):
                 ast.fix_missing_locations(x)
             stmts[i:i + 1] = unrolled
             continue
+        # 15c. a search over a short table of constant rows - `for w, f in ROWS: if C: BODY; break` - is the chain `if C[row 1]: BODY elif C[row 2]: ..`
+        if isinstance(s, ast.For) and isinstance(s.iter, (ast.Tuple, ast.List)) and 1 <= len(s.iter.elts) <= 6 and isinstance(s.target, (ast.Tuple, ast.Name)) \
+                and not s.orelse and len(s.body) == 1 and isinstance(s.body[0], ast.If) and not s.body[0].orelse and s.body[0].body \
+                and isinstance(s.body[0].body[-1], ast.Break) \
+                and not any(isinstance(x, (ast.Break, ast.Continue, ast.For, ast.While, ast.AsyncFor, ast.FunctionDef, ast.AsyncFunctionDef, ast.Lambda))
+                            for b_ in s.body[0].body[:-1] for x in ast.walk(b_)):
+            tnames = [t_.id for t_ in s.target.elts] if isinstance(s.target, ast.Tuple) and all(isinstance(t_, ast.Name) for t_ in s.target.elts) else \
+                ([s.target.id] if isinstance(s.target, ast.Name) else None)
+
+            def _const(c_):
+                return isinstance(c_, ast.Constant) or (isinstance(c_, ast.UnaryOp) and isinstance(c_.operand, ast.Constant))
+            rows = None
+            if tnames is not None:
+                if isinstance(s.target, ast.Name) and all(_const(r_) for r_ in s.iter.elts):
+                    rows = [[r_] for r_ in s.iter.elts]
+                elif isinstance(s.target, ast.Tuple) and all(isinstance(r_, (ast.Tuple, ast.List)) and len(r_.elts) == len(tnames) and all(_const(c_) for c_ in r_.elts)
+                                                             for r_ in s.iter.elts):
+                    rows = [list(r_.elts) for r_ in s.iter.elts]
+            stores = tnames is not None and any(isinstance(x, ast.Name) and x.id in tnames and isinstance(x.ctx, (ast.Store, ast.Del))
+                                                for b_ in s.body for x in ast.walk(b_))
+            later = tnames is not None and any(isinstance(x, ast.Name) and x.id in tnames for st_ in stmts[i + 1:] for x in ast.walk(st_))
+            if rows is not None and not stores and not later:
+                import copy as _copy
+                chain = []
+                for r_ in reversed(rows):
+                    arm = _copy.deepcopy(s.body[0])
+                    arm.body = arm.body[:-1] or [ast.copy_location(ast.Pass(), s)]
+                    for t_, c_ in zip(tnames, r_):
+                        arm = _Subst(t_, c_).visit(arm)
+                    arm = _Expr().visit(arm)
+                    arm.orelse = chain
+                    chain = [arm]
+                for x in chain:
+                    ast.fix_missing_locations(x)
+                stmts[i:i + 1] = chain
+                continue
+        # 15b. a loop over a short table of constant rows (`for width, fmt in ((1, 'B'), (2, 'H'), ..)`) whose body neither breaks nor continues is
+        #      the body once per row (a table-driven dispatch read back as the decision chain it stands for)
+        if isinstance(s, ast.For) and isinstance(s.iter, (ast.Tuple, ast.List)) and 1 <= len(s.iter.elts) <= 6 and isinstance(s.target, ast.Tuple) \
+                and all(isinstance(t_, ast.Name) for t_ in s.target.elts) and not s.orelse \
+                and all(isinstance(r_, (ast.Tuple, ast.List)) and len(r_.elts) == len(s.target.elts) and
+                        all(isinstance(c_, ast.Constant) or (isinstance(c_, ast.UnaryOp) and isinstance(c_.operand, ast.Constant)) for c_ in r_.elts) for r_ in s.iter.elts) \
+                and not any(isinstance(x, (ast.Break, ast.Continue, ast.For, ast.While, ast.AsyncFor, ast.FunctionDef, ast.AsyncFunctionDef, ast.Lambda))
+                            for b_ in s.body for x in ast.walk(b_)) \
+                and not any(isinstance(x, ast.Name) and x.id in {t_.id for t_ in s.target.elts} and isinstance(x.ctx, (ast.Store, ast.Del))
+                            for b_ in s.body for x in ast.walk(b_)):
+            import copy as _copy
+            unrolled = []
+            for r_ in s.iter.elts:
+                for b_ in s.body:
+                    nb = _copy.deepcopy(b_)
+                    for t_, c_ in zip(s.target.elts, r_.elts):
+                        nb = _Subst(t_.id, c_).visit(nb)
+                    unrolled.append(_Expr().visit(nb))
+            for x in unrolled:
+                ast.fix_missing_locations(x)
+            stmts[i:i + 1] = unrolled
+            continue
         # 2. x = x +/- e
         if isinstance(s, ast.Assign) and len(s.targets) == 1 and isinstance(s.targets[0], (ast.Name, ast.Attribute)) and isinstance(s.value, ast.BinOp) \
                 and isinstance(s.value.op, (ast.Add, ast.Sub)) and isinstance(s.value.left, (ast.Name, ast.Attribute)) \
